@@ -530,6 +530,34 @@ def wl_odd(ctx, rng, i):
                         ctx.violation("content-changed-in-store:" + fam, "%s gives back %s (%s) with other content via %s" % (rname, o["id"], lab, how),
                                       {"store": rname, "object": o, "form": form, "how": how, "kind": lab, "got": same[:2]})
             ctx.nontrivial("odd", sname.split("(")[0], lab, form, "modified" in o, o["type"])
+        # what went in stays what it was: the caller goes on using (and changing) the dictionary it handed over
+        if fam == "odd-id" and lab == "plain":
+            for sname, store in (("MemoryStore", stix2.MemoryStore(allow_custom=True)), ("MemorySink+MemorySource", None),
+                                 ("FileSystemStore", stix2.FileSystemStore(tempfile.mkdtemp(dir=tmp), allow_custom=True))):
+                mine = json.loads(json.dumps(o))
+                went_in = json.loads(json.dumps(o))
+                form = rng.choice(["dict", "list", "bundle-dict"])
+                if store is None:
+                    store = stix2.MemoryStore(allow_custom=True)
+                try:
+                    with warnings.catch_warnings():
+                        warnings.simplefilter("ignore")
+                        store.add(mine if form == "dict" else [mine] if form == "list" else {"type": "bundle", "id": "bundle--" + V.uuid_text(rng, 4), "objects": [mine]})
+                except Exception:
+                    continue
+                mine["name"] = "changed by the caller afterwards"
+                mine["payload"].append("appended afterwards")
+                if "modified" in mine:
+                    mine["modified"] = "2031-01-01T00:00:00.000Z"
+                ctx.ev()
+                ctx.count("callers_dictionary_changed_after_add")
+                try:
+                    got = [norm(x) for x in [store.get(o["id"])] + list(store.all_versions(o["id"])) + list(store.query([Filter("id", "=", o["id"])])) if x is not None]
+                except Exception as e:
+                    got = [{"raised": repr(e)[:200]}]
+                if not got or any({k: g.get(k) for k in went_in} != went_in for g in got):
+                    ctx.violation("stored-content-follows-callers-dictionary", "%s: after the caller changed the dictionary it had added (%s), the store answers with other content than went in" % (sname, form),
+                                  {"store": sname, "form": form, "went_in": went_in, "got": got[:3]})
     finally:
         shutil.rmtree(tmp, ignore_errors=True)
 
